@@ -1,5 +1,5 @@
 (* Stages B, C and D of C01_back: programs over top-level variables.  A program is a list of top-level statements -
-   declarations `x := e`, assignments `x = e`, expression statements, conditionals `if c { ... } else { ... }` / `if c { ... }` and
+   declarations `x := e`, assignments `x = e`, `x += e` (also -= *= /=), `x++`, `x--`, expression statements, conditionals `if c { ... } else { ... }` / `if c { ... }` and
    condition loops `for c { ... }` whose blocks are again lists of assignments, expression statements, conditionals
    and loops, nested to any depth, with break and continue - over the scalar expressions of ScalarFrag.v (which may mention the variables
    declared so far).  The k-th declaration declares variable k; [names] gives the variables their (distinct,
@@ -14,6 +14,8 @@ Local Open Scope nat_scope.
 Inductive stmt :=
 | SDecl (e : sexp)                       (* x_k := e   (top level only) *)
 | SSet (i : nat) (e : sexp)              (* x_i = e *)
+| SSetOp (i : nat) (o : bop) (e : sexp)  (* x_i += e,  -=  *=  /= *)
+| SInc (i : nat) (up : bool)             (* x_i++  /  x_i-- *)
 | SExpr (e : sexp)
 | SIf (c : sexp) (t e : list stmt)       (* if c { t } else { e } *)
 | SIf1 (c : sexp) (t : list stmt)        (* if c { t } *)
@@ -23,6 +25,8 @@ Inductive stmt :=
 (* k = number of variables declared so far *)
 Definition next_k (k : nat) (s : stmt) : nat := match s with SDecl _ => S k | _ => k end.
 
+Definition is_compound (o : bop) : bool := match o with BAdd | BSub | BMul | BDiv => true | _ => false end.
+
 (* ---------------------------------------------------------------- the AST of a program *)
 Definition embed_list (es : nat -> stmt -> node) : nat -> list stmt -> list node :=
   fix el (k : nat) (l : list stmt) : list node :=
@@ -31,6 +35,8 @@ Fixpoint embed_stmt (names : list (list N)) (k : nat) (s : stmt) {struct s} : no
   match s with
   | SDecl e => NVar (nth k names []) (embed names e)
   | SSet i e => NAssign (nth i names []) [61%N] (embed names e)
+  | SSetOp i o e => NAssign (nth i names []) (op_text o ++ [61%N]) (embed names e)
+  | SInc i up => NPostfix (nth i names []) (if up then [43; 43]%N else [45; 45]%N)
   | SExpr e => embed names e
   | SIf c t e => NIf (embed names c) (embed_list (embed_stmt names) k t) (Some (embed_list (embed_stmt names) k e))
   | SIf1 c t => NIf (embed names c) (embed_list (embed_stmt names) k t) None
@@ -49,6 +55,8 @@ Fixpoint wf_stmt (top lp : bool) (k : nat) (s : stmt) {struct s} : bool :=
   match s with
   | SDecl e => top && wf k e
   | SSet i e => Nat.ltb i k && wf k e
+  | SSetOp i o e => Nat.ltb i k && wf k e && is_compound o
+  | SInc i _ => Nat.ltb i k
   | SExpr e => wf k e
   | SIf c t e => wf k c && wf_list (wf_stmt false lp) k t && wf_list (wf_stmt false lp) k e
   | SIf1 c t => wf k c && wf_list (wf_stmt false lp) k t
@@ -64,7 +72,8 @@ Fixpoint ndecls (l : list stmt) : nat :=
 Definition max_list (h : stmt -> nat) (d : nat) (l : list stmt) : nat := fold_right (fun s a => Nat.max (h s) a) d l.
 Fixpoint sheight (s : stmt) : nat :=
   match s with
-  | SDecl e | SSet _ e | SExpr e => height e
+  | SDecl e | SSet _ e | SExpr e | SSetOp _ _ e => height e
+  | SInc _ _ => 0
   | SIf c t e => S (Nat.max (height c) (Nat.max (max_list sheight 0 t) (max_list sheight 0 e)))
   | SIf1 c b | SWhile c b => S (Nat.max (height c) (max_list sheight 0 b))
   | SBreak | SContinue => 0
@@ -72,6 +81,8 @@ Fixpoint sheight (s : stmt) : nat :=
 Fixpoint sneed (s : stmt) : nat :=
   match s with
   | SDecl e | SSet _ e | SExpr e => need e
+  | SSetOp _ _ e => S (need e)
+  | SInc _ _ => 2
   | SIf c t e => Nat.max (need c) (Nat.max (max_list sneed 1 t) (max_list sneed 1 e))
   | SIf1 c b | SWhile c b => Nat.max (need c) (max_list sneed 1 b)
   | SBreak | SContinue => 1
@@ -104,6 +115,11 @@ Fixpoint run_stmt (fuel : nat) (rho : list sval) (s : stmt) {struct fuel} : resu
     match s with
     | SDecl e => of_sev (sev rho e) (fun v => (rho ++ [v], VNil))
     | SSet i e => of_sev (sev rho e) (fun v => (set_nth i v rho, VNil))
+    | SSetOp i o e => match sev rho e with
+                      | inl v => of_sev (sbin o (nth i rho VNil) v) (fun r => (set_nth i r rho, VNil))
+                      | inr x => Some (inr (StErr x))
+                      end
+    | SInc i up => of_sev (sbin BAdd (nth i rho VNil) (VInt (if up then 1 else -1))) (fun r => (set_nth i r rho, VNil))
     | SExpr e => of_sev (sev rho e) (fun v => (rho, v))
     | SIf c t e => match sev rho c with
                    | inl vc => run_list (run_stmt f) rho (if struthy vc then t else e) VNil
@@ -158,6 +174,10 @@ Fixpoint stmt_code (k base : nat) (s : stmt) {struct s} : slots :=
   match s with
   | SDecl e => let '(c, ks) := cexp base e in (I (c ++ [opStoreGlobal; N.of_nat k]), ks)
   | SSet i e => let '(c, ks) := cexp base e in (I (c ++ [opStoreGlobal; N.of_nat i]), ks)
+  | SSetOp i o e => let '(c, ks) := cexp base e in
+                    (I ([opLoadGlobal; N.of_nat i] ++ c ++ op_code o ++ [opStoreGlobal; N.of_nat i]), ks)
+  | SInc i up => (I [opLoadGlobal; N.of_nat i; opLoadConst; N.of_nat base; opBinaryOp; bAdd; opStoreGlobal; N.of_nat i],
+                  [KInt (if up then 1 else -1)])
   | SExpr e => islots (cexp base e)
   | SIf c t e =>
       let '(cc, kc) := cexp base c in
